@@ -2,3 +2,21 @@
 PENDING = "static check not built yet in this round (see DESIGN.md section 3 for the planned rules); not claimed until the rule exists and passes both ways"
 for i in range(1, 21):
     NOT_APPLICABLE["C%02d" % i] = PENDING
+
+def claim(pid, text, note, technique):
+    CLAIMED[pid] = dict(text=text, note=note, technique=technique)
+    NOT_APPLICABLE.pop(pid, None)
+
+COMMON_NOTE = ("Trusted: go/types and go/ssa (x/tools v0.29.0) model of the program, Go semantics of maps/channels/integers, "
+               "the reviewed rule tables in /verif/checker. Assumed: the kernel alternates press/release per key; configurations reach devices only through ParseData. "
+               "Paths are enumerated with loops unrolled once and pruned only on syntactic contradictions (no solver); unrecognised idioms fail the check (undecided), they never pass it.")
+
+claim("C01",
+      "Decides, for every path of NoteOn/NoteOff/AnalogNoteOn/AnalogNoteOff, the key and axis handlers and the disconnect clean-up, the pairing discipline that makes 'nothing held => nothing sounding' hold: record-what-you-emit, release-what-was-recorded, tracker writers, tracker consult on every release path (keys and axes, also after a mapping switch), clean-up on every exit path, exhaustive mode cases. Structural necessary conditions for all histories; not a proof of the behavioural statement (alternation of press/release is assumed).",
+      COMMON_NOTE, "path-effect enumeration over go/ssa (no solver) + who-may-write table + must-pass-through")
+claim("C02",
+      "Decides that channel and note of every Note Off come from the tracker entry of the released key only (no read of octave/semitone/channel/mapping/config), that the entry is exactly what the press emitted, that a tracked key reaches NoteOff whatever the current mapping, and that none of the 17 state-action functions can reach a MIDI send or event constructor or writes anything but its own parameter.",
+      COMMON_NOTE, "backward provenance of event operands on enumerated SSA paths + call-graph effect confinement (who-may-send / who-may-write)")
+claim("C03",
+      "Decides the complete per-mode emission skeleton of NoteOn and NoteOff (all paths, grouped by collision-mode constant and holder-counter guard), that guard/event/counter use the same (channel, note), that the counter is inc-once/dec-once with no other writer and zero-initialised for 16x128, and that the case sets equal the supported-mode table.",
+      COMMON_NOTE, "path-effect enumeration over go/ssa grouped by mode/guard atoms; counted-loop recognition; constant table comparison")
